@@ -19,15 +19,6 @@ open Btc Btc.EC Btc.C01 Btc.Bip32
 section
 variable {p : ℕ} [Fact p.Prime] {C : Curve}
 
-/-- the restricted `lift_x` of `opsSub K` returns exactly the pair `Btc.EC.ops C`'s does -/
-def LiftAgree (K : CurveOk p C) : Prop :=
-  ∀ x : ℤ, ((opsSub K).liftX x).map Subtype.val = (EC.ops C).liftX x
-
-theorem liftAgree_of_cofactor_one (K : CurveOk p C) (h34 : p % 4 = 3)
-    (hcof : ∀ g : Pt p C.toCurveGroup, C.n • g = 0)
-    (hΔ : (curveOf p C.toCurveGroup).toAffine.Δ ≠ 0) : LiftAgree K :=
-  fun x => liftXSub_val_of_cofactor_one K h34 hcof hΔ x
-
 variable (K : CurveOk p C) (D : EnvData)
 
 /-! ### parsing a compressed key -/
@@ -311,31 +302,31 @@ theorem secp256k1_disc_ne_zero :
 theorem secp_liftAgree (hcof : SecpCofactorOne) : LiftAgree secpOk :=
   liftAgree_of_cofactor_one secpOk secp256k1_h34 hcof secp256k1_disc_ne_zero
 
-theorem deriveB_eq_fold_secp256k1_raw (hcof : SecpCofactorOne) (mac : Bytes → Bytes → Bytes) (x : XKey) (path : List ℕ)
+theorem deriveB_eq_fold_secp256k1_cofactor_one (hcof : SecpCofactorOne) (mac : Bytes → Bytes → Bytes) (x : XKey) (path : List ℕ)
     (hk : x.isPrivate = true ∨ ∀ i ∈ path, i < HARDENED) (hd : x.depth + path.length ≤ MAX_DEPTH) :
     deriveB (secpEnv mac) x path none = deriveFold (secpEnv mac) x path :=
   deriveB_eq_fold_raw secpOk (secpData mac) (secp_liftAgree hcof) secp256k1_h34 (secp_bounds mac) x path hk hd
 
-theorem deriveB_fields_secp256k1_raw (hcof : SecpCofactorOne) (mac : Bytes → Bytes → Bytes) (x y : XKey) (path : List ℕ)
+theorem deriveB_fields_secp256k1_cofactor_one (hcof : SecpCofactorOne) (mac : Bytes → Bytes → Bytes) (x y : XKey) (path : List ℕ)
     (hk : x.isPrivate = true ∨ ∀ i ∈ path, i < HARDENED) (h : deriveB (secpEnv mac) x path none = .ok y) :
     y.depth = x.depth + path.length ∧ y.version = x.version ∧ y.isPrivate = x.isPrivate ∧
     ∀ i, path.getLast? = some i → y.index = i :=
   deriveB_fields_raw secpOk (secpData mac) (secp_liftAgree hcof) secp256k1_h34 (secp_bounds mac) x y path hk h
 
-theorem deriveB_compose_secp256k1_raw (hcof : SecpCofactorOne) (mac : Bytes → Bytes → Bytes) (x y : XKey)
+theorem deriveB_compose_secp256k1_cofactor_one (hcof : SecpCofactorOne) (mac : Bytes → Bytes → Bytes) (x y : XKey)
     (q r : List ℕ) (hk : x.isPrivate = true ∨ ∀ i ∈ q ++ r, i < HARDENED)
     (hd : x.depth + (q ++ r).length ≤ MAX_DEPTH) (h : deriveB (secpEnv mac) x q none = .ok y) :
     deriveB (secpEnv mac) y r none = deriveB (secpEnv mac) x (q ++ r) none :=
   deriveB_compose_raw secpOk (secpData mac) (secp_liftAgree hcof) secp256k1_h34 (secp_bounds mac) x y q r hk hd h
 
-theorem neuter_derive_secp256k1_raw (hcof : SecpCofactorOne) (mac : Bytes → Bytes → Bytes) (x : XKey) (v : Bytes)
+theorem neuter_derive_secp256k1_cofactor_one (hcof : SecpCofactorOne) (mac : Bytes → Bytes → Bytes) (x : XKey) (v : Bytes)
     (path : List ℕ) (hv : ValidPrv (secpEnv mac) x) (hver : Gen.Bip32.pubVersion x.version = some v)
     (hp : ∀ i ∈ path, i < HARDENED) :
     ((deriveFold (secpEnv mac) x path).mapError Err.toPub).bind (neuter (secpEnv mac)) =
       (neuter (secpEnv mac) x).bind fun x' => deriveFold (secpEnv mac) x' path :=
   neuter_derive_raw_full secpOk (secpData mac) (secp_liftAgree hcof) secp256k1_h34 (secp_bounds mac) x v path hv hver hp
 
-theorem neuter_deriveB_secp256k1_raw (hcof : SecpCofactorOne) (mac : Bytes → Bytes → Bytes) (x : XKey) (v : Bytes)
+theorem neuter_deriveB_secp256k1_cofactor_one (hcof : SecpCofactorOne) (mac : Bytes → Bytes → Bytes) (x : XKey) (v : Bytes)
     (path : List ℕ) (hv : ValidPrv (secpEnv mac) x) (hver : Gen.Bip32.pubVersion x.version = some v)
     (hp : ∀ i ∈ path, i < HARDENED) (hd : x.depth + path.length ≤ MAX_DEPTH) :
     ((deriveB (secpEnv mac) x path none).mapError Err.toPub).bind (neuter (secpEnv mac)) =
